@@ -511,7 +511,7 @@ def get_ref(ref, ix):
     return ref
 
 
-def random_metric(rng, n, coords, nshear, conformal):
+def random_metric(rng, n, coords, nshear, conformal, linear=False):
     """A^T eta A with A a product of polynomial shears (det = ±1, polynomial
     inverse); optionally one coordinate-dependent diagonal factor"""
     sp = sym()
@@ -519,7 +519,7 @@ def random_metric(rng, n, coords, nshear, conformal):
     for _ in range(nshear):
         a, b = rng.sample(range(n), 2)
         c, d = rng.choice(coords), rng.choice(coords)
-        f = rng.choice([c, c * d, c ** 2, 2 * c, c + d, 1 + c])
+        f = rng.choice([c, 2 * c, c + d, 1 + c] if linear else [c, c * d, c ** 2, 2 * c, c + d, 1 + c])
         E = sp.eye(n)
         E[a, b] = f
         A = A * E
@@ -640,7 +640,7 @@ def search(ctx, deep):
             # simplify=True: polynomial metrics with polynomial inverse only (sympy.simplify on
             # rational functions takes minutes); rational inverses are covered by the corpus
             g = random_metric(rng, n, coords, nshear=(2 if flag else rng.randint(2, 3)),
-                              conformal=(not flag and (n == 2 or rng.random() < 0.5)))
+                              conformal=(not flag and (n == 2 or rng.random() < 0.5)), linear=flag)
             offdiag = any(g[a, b] != 0 for a in range(n) for b in range(n) if a != b)
             pt = {c: "%d/%d" % (rng.choice([-5, -4, -3, -2, -1, 1, 2, 3, 4, 5]), rng.randint(1, 4)) for c in cn}
             det_at = g.det().subs({s: sp.Rational(pt[c]) for c, s in zip(cn, coords)})
